@@ -453,6 +453,7 @@ fn explore(ctx: &Ctx) -> Outcome {
             return o;
         }
     };
+    let capped = res.capped.clone();
     let mut tally = res.tally;
     for f in &res.fatals {
         let (sig, summary) = isolate::describe_fatal("decompress", &f.status);
@@ -467,6 +468,10 @@ fn explore(ctx: &Ctx) -> Outcome {
         true,
         vec![("families", json!(fam_json)), ("worker_respawns", json!(res.respawns)), ("chunks", json!(res.chunks))],
     );
+    if let Some(c) = &capped {
+        o.coverage.exhaustive = false;
+        o.warn(format!("sweep capped: {}", c));
+    }
     o.assumptions = vec![
         "an LZ11 stream at the LZ10 entry point, an LZ10 stream inside the 0x13 wrapper, trailing bytes after the last token and references that overshoot the declared length are not covered by the statement: only 'no panic' is required there".into(),
         "declared lengths stay below 64 MiB (resource exhaustion is not a verdict)".into(),
